@@ -16,3 +16,4 @@ def run(chk):
     core_rules.set_commissions_rules(chk, "C07")
     backtest_rules.run_loop(chk, "C07")
     core_rules.accessor_rules(chk, "C07")
+    core_rules.security_setup_rules(chk, "C07")  # the outlay / bid-offer history columns start at zero on both setup paths
